@@ -20,7 +20,7 @@ use crate::util::*;
 pub const PROP: Prop = Prop {
     id: "C10",
     level: "exploration",
-    rule: "inputs from printed values in several dialects (multi-datum streams), mutations of them, token-alphabet sequences and arbitrary bytes x sampled parser option sets (all 1536 reachable) x three sources; the value API and the datum API are run to the end or first error on fresh parsers and compared item by item (value equality, same terminal event with identical message, location and category); value_iter, datum_iter and Iterator for Parser must give the same sequences; every datum is walked recursively through Ref::list_iter (with peek/is_empty), vector_iter, as_pair, Deref and compared with the value's own accessors; non-trivial = at least 2 datums, or a composite datum, or malformed input that yields an item before failing; distinct by digest of (input, options, source)",
+    rule: "(on every input the twelve one-shot entry points - from_*, from_*_custom, datum::from_*, datum::from_*_custom for str, slice and reader, and str::parse - are compared: to the letter within a source kind, value and error message across source kinds; the span and shape of every car reached through as_pair are compared with the item list_iter yields) inputs from printed values in several dialects (multi-datum streams), mutations of them, token-alphabet sequences and arbitrary bytes x sampled parser option sets (all 1536 reachable) x three sources; the value API and the datum API are run to the end or first error on fresh parsers and compared item by item (value equality, same terminal event with identical message, location and category); value_iter, datum_iter and Iterator for Parser must give the same sequences; every datum is walked recursively through Ref::list_iter (with peek/is_empty), vector_iter, as_pair, Deref and compared with the value's own accessors; non-trivial = at least 2 datums, or a composite datum, or malformed input that yields an item before failing; distinct by digest of (input, options, source)",
     assumptions: &["iteration stops at the first error (continuing after an error is C12's subject)"],
     run,
     replay,
